@@ -9,22 +9,26 @@ CLAIMED = {
     "C01": dict(
         text="Lean theorem validate_sound: if the symbolic validator accepts the straight-line numpy program translated from a traced graph against the symbolic loop-notation "
              "denotation, then for ALL tensor contents and ALL interpretations of the elementary functions the program computes the denotation (naturality of plan execution "
-             "w.r.t. homomorphisms of element algebras). On every run: the real traced graphs of generated id/elementwise calls are validated in the Lean driver; the numpy "
+             "w.r.t. homomorphisms of element algebras). lower_id_correct/lower_id_validates (Props/C01Lower.lean): for EVERY pair of id expressions in the domain of the decomposer model (groups to any depth, unit and "
+             "broadcast axes, any permutation, all lengths) the emitted reshape/transpose/broadcast program equals the denotation, which is defined; peel_eq_unravel, "
+             "argfind_coordinates_meaning, get_at_index_meaning, normArith_sound, views_fuel_sufficient. On every run: the real traced graphs of generated id/elementwise(n-ary)/"
+             "reduction/dot/flip/roll/argmax/argmin/get_at/sort/argsort calls are validated in the Lean driver; the numpy "
              "primitive plans are conformance-tested against numpy; every generated call of every family (id, reductions, elementwise, dot, get_at, argfind, preserve_shape; "
              "three numpy backends) is executed on integer data and compared with an independent Python loop interpreter (the failing-input search).",
         note="Trusted: Lean kernel, driver, graph serialiser/translator (graph JSON -> Instr list, in Lean), numpy primitive plans (conformance-tested), the Python loop interpreter, "
-             "einx's own solved expression trees (front-trusted; tied by C02/C07/C12). The validator currently covers the id and elementwise families; reductions, dot, get_at, "
-             "argfind and preserve_shape rest on the end-to-end oracle comparison alone (sampled, not proved). Only numpy backends can run here.",
+             "einx's own solved expression trees (front-trusted; tied by C02/C07/C12). softmax, log_softmax and logsumexp rest on the end-to-end oracle comparison alone (the generated code is the max-stabilised composition); graphs collapsed by "
+             "InlineGraph are not translated by the validator. lowerId is a model of the decomposer tied to traced graphs by C17's stb_model stream. Only numpy backends can run here.",
         technique="Lean 4 proof (validator soundness) + per-call translation validation of real traced graphs + oracle differential",
         design="5 (C01), 4 (M3, M5)"),
     "C02": dict(
         text="Lean theorems about a reference solver over unbounded Nat: unit propagation derives only forced values (propagate_forced), verdict none means no solution, "
              "verdict unique means the answer satisfies the system and every solution equals it, fuel sufficiency, checker iff Sat; the same for the rank level "
-             "(ellipsis repetition counts, width polynomials) and the two-level solver against the specification Sols (solveAll_sound, checkAll_iff). "
+             "(ellipsis repetition counts, width polynomials) and the two-level solver against the specification Sols (solveAll_sound, checkAll_iff). CSE at value level: valueRange proved equal to the translation of the current _value_range source (extracted_valueRange_eq), "
+             "valueRange_spec (a non-None range is exactly the value set), cse_preserves_sols / cse_solvable_iff / cse_forced_iff / cse_propagate_sound. "
              "On every run einx's solve_axes/solve_shapes/matches and the shapes of id/sum results are compared with the proved solver and with an independent brute-force "
              "Python enumerator on generated, mutated and 2**31..2**64 inputs under the three obligations the property states.",
-        note="Trusted: Lean kernel, driver, harness, Python brute-force oracle; expression trees come from einx's own stage-1 parser (front-trusted; parser is C12). sympy and CSE are not "
-             "modelled: their effect is observed behaviourally. Success is demanded only where unit propagation suffices.",
+        note="Trusted: Lean kernel, driver, harness, Python brute-force oracle; expression trees come from einx's own stage-1 parser (front-trusted; parser is C12). sympy is not "
+             "modelled (observed behaviourally); CSE's candidate search and tree surgery are C16's model, linked to the value-level theorems on an instance only. Success is demanded only where unit propagation suffices.",
         technique="Lean 4 proof over reference solver + differential correspondence with brute-force oracle",
         design="5 (C02)"),
     "C06": dict(
@@ -59,12 +63,13 @@ CLAIMED = {
         design="5 (C13)"),
     "C04": dict(
         text="Byte-exact Lean model of the code generator (usage counting, scopes, per-node rules, fuse/liveness, naming, rendering; switches REGENERATED from the AST of usage.py/"
-             "__init__.py) with theorems emit_order, emit_once, fuse_sound (renaming under the interference condition preserves trace and result), obligations value_computed_once / "
+             "__init__.py) with theorems compile_correct_wf (universal: for every graph satisfying the decidable Graph.WF and all switches, compile success implies that the reference evaluation succeeds with the same "
+             "event trace and result as executing the emitted statements; nested graphs, in-place calls, item updates), compile_correct(_flat,_compiled,_fused), emit_closed, visitOrder_nodup/_noSelfRef/_wellBracketed, emit_order, emit_once(_wf), fuse_sound (renaming under the interference condition preserves trace and result), obligations value_computed_once / "
              "self_contained / unary_operator over the extracted switches, decide'd D6 witness. On every run: model text == real compile() text on captured and synthetic graphs (all node "
              "kinds, nested graphs); the driver symbolically executes emitted statements and evalGraph per graph and compares trace and result; search: exec of the emitted text on "
              "instrumented versioned objects vs a memoised node-by-node reference interpreter (results, ordered effects, evaluation counts), graph=True text == exec'd text.",
-        note="Trusted: Lean kernel, driver, extractor, harness/reference interpreter. compile_correct is not a universal theorem: it is checked per compiled graph (valid for all run-time "
-             "values of that graph); that the real fuse loop/visit order always satisfy fuse_safe/closed_order is checked per graph, not proved. Reading of 'computed once': attribute lookups "
+        note="Trusted: Lean kernel, driver, extractor, harness/reference interpreter. Graph.WF is decided per graph by the driver (true on all graphs seen); that the real fuse loop always produces a fuseSafe renaming is checked per graph, not proved; "
+             "the theorems speak about statements in emission order (hoisting of imports in the text is trusted). Reading of 'computed once': attribute lookups "
              "on imported modules and builtin names are constant lookups (rendered inline by design), every other node value is computed once.",
         technique="Lean 4 proof over byte-exact generator model + switches regenerated from source + per-graph translation validation + instrumented execution search",
         design="5 (C04)"),
@@ -91,12 +96,13 @@ CLAIMED = {
     "C05": dict(
         text="Lean theorems about the same plan functions the validator executes, for all ranks/shapes/permutations/element algebras: transpose_transpose over the permutation-composition "
              "kernel TRANSLATED from optimizer/classical.py on every run (composePerm_spec by rfl breaks if the order is reversed), transpose_id, reshape_same, reshape_reshape, broadcast_same, "
-             "concat_singleton, each extracted no-op test implies its theorem's hypothesis, termination of the pass loop for any strictly-decreasing pass model, equiv_sound/equivG_sound "
+             "concat_singleton, each extracted no-op test implies its theorem's hypothesis, rule_sound / rewrites_sound / rewrite_sound / optimize_sound(_fixpoint) (whole passes on the term model with the IR's evaluation semantics, any traversal order), "
+             "rebuild_preserves / unfold_sound (sharing as let-bindings), termination of the pass loop for any strictly-decreasing pass model, equiv_sound/equivG_sound "
              "(symbolic equivalence of two programs implies equal outputs on all inputs). On every run each real graph before/after tracer.optimize is proved equal symbolically in the driver "
              "(unsupported primitives fall back to a node-by-node numpy evaluator incl. in-place nodes), real passes are monitored for the termination measure, synthetic chains with shared "
              "sub-graphs are optimised with the real pattern objects.",
-        note="Trusted: Lean kernel, driver, the Python->Lean mini translator for the kernel anchors, graph serialiser/translator, numpy primitive plans. Whole-pass soundness with sharing "
-             "(rebuild_preserves) is not a theorem: it is established per real graph by equiv + equiv_sound and by the evaluator; Cast is the identity by construction of the translation.",
+        note="Trusted: Lean kernel, driver, the Python->Lean mini translator for the kernel anchors, graph serialiser/translator, numpy primitive plans. Whole-pass soundness is proved on the term model (trees; DAGs as let-lists and via unfolding); in-place nodes, InlineGraph and the tie of the real traversal to Rewrites steps "
+             "stay per real graph (equiv + equiv_sound, evaluator); Cast is the identity by construction of the translation.",
         technique="Lean 4 proof over kernels translated from source + per-graph translation validation (pre vs post optimisation)",
         design="5 (C05)"),
     "C07": dict(
@@ -109,12 +115,11 @@ CLAIMED = {
         technique="Lean 4 proof over hand-written model on regenerated flags + differential correspondence + metamorphic pair search",
         design="5 (C07)"),
     "C08": dict(
-        text="Lean theorems on a loop-free form of the denotation proved equal to the executable one (denoteId_fun_agree): renaming invariance for injective renamings (denote_rename*), "
-             "pos_flat_is_ravel and the regrouping laws against the IR's reshape plan, input/output permutation against the IR's transpose plan, positions valid and injective on the iteration "
+        text="Lean theorems on a loop-free form of the denotation proved equal to the executable one (denoteId_fun_agree_multi, denoteElementwise_fun_agree): renaming invariance for renamings injective on the names in use (denote_rename_on*, denote_reduce_rename), "
+             "pos_flat_is_ravel and the regrouping laws against the IR's reshape plan, input/output permutation against the IR's transpose plan as equalities of whole result tensors (denote_permute_input_tensor/_expr/_elementwise, denote_permute_output_tensor/_expr), positions valid and injective on the iteration "
              "space, id_inverse and id_compose in full (substitution of symbolic tensors). Search: six metamorphic relations on real einx calls (rename, permute input/output, regroup, round "
              "trip, composition) over all families/backends with equal lengths and length-1 axes, also evaluated on the Lean denotation.",
-        note="Trusted: Lean kernel, driver, harness. permute_input/output are per in-range assignment (not lifted to whole tensors); the functional/loop tie theorem covers single-input id, "
-             "multi-tensor id and elementwise are tied by the driver differential; transfer to einx goes through C01's tie.",
+        note="Trusted: Lean kernel, driver, harness. the output permutation law assumes both results defined; reductions: renaming only (bracket-order law not proved); no functional/loop tie for concatenations; transfer to einx goes through C01's tie.",
         technique="Lean 4 proof over denotation + metamorphic search on the implementation",
         design="5 (C08)"),
     "C09": dict(
@@ -148,12 +153,13 @@ CLAIMED = {
         design="5 (C10)"),
     "C11": dict(
         text="Lean theorems about the model of BackendRegistryState (precedence chain, get = pure specGet in every quiet state with a sound memo, "
-             "lookups do not influence later lookups, register clears the memo [obligation regenerated from the AST], failing factories isolated, real priorities) "
+             "lookups do not influence later lookups, select_is_max_priority_set, independence of the order of `backends` and of registration order (select_order_independent, get_registration_order_independent), history_independent / history_order_independent "
+             "for every history without lazy registration, lazy_history_spec / lazy_history_independent under the decidable discipline, two counterexample theorems outside it, register clears the memo [obligation regenerated from the AST], failing factories isolated, real priorities) "
              "+ step-by-step differential correspondence of the model with fresh real BackendRegistry objects on random op sequences; "
              "on a broken obligation/tie: search of disciplined histories on the real registry against the pure specification.",
         note="Trusted: Lean kernel (propext, Classical.choice, Quot.sound), driver compiled by Lean, AST extractor for _register/priorities, harness. "
-             "History independence is proved for quiet states (no lazily registered factory waiting for an already imported module); the non-quiet corner "
-             "(eager and lazy backends for the same tensor type) is only sampled by the correspondence.",
+             "Undisciplined lazy histories (eager and lazy backends for the same tensor type, or a framework type looked up before its module is imported) are provably history dependent "
+             "and only sampled by the correspondence; not reachable with einx's own registrations.",
         technique="Lean 4 proof over hand-written model + regenerated obligations + differential correspondence",
         design="5 (C11)"),
     "C14": dict(
@@ -169,11 +175,11 @@ CLAIMED = {
     "C12": dict(
         text="Total executable Lean model of parse_op/parse_args/parse_arg (well-founded recursion, no fuel) over constants regenerated from the source; theorems: every string "
              "yields a tree, a SyntaxError or one of five characterised internal kinds (parse_total_cases), every caret position is inside the caller's string "
-             "(parse_err_pos_in_range, all strings), token-level space invariance, obligations over the extracted operator/literal tables, refutation witnesses for print_parse "
+             "(parse_err_pos_in_range, all strings), space_invariance for parseOp (every redundant-space slot; trees equal up to positions and an injective renumbering of fresh ids, errors keep their kind), print_parse_partial for the decidable class Printable, obligations over the extracted operator/literal tables, refutation witnesses for print_parse "
              "(decide +kernel) + exhaustive (<=4/5 tokens) and random correspondence of tree/error/carets with the real parser + five oracles on the real code "
              "(exception class, carets, space insertion, print/re-parse, public ops never quote foreign text).",
-        note="Trusted: Lean kernel, driver, extractor of the parser constants/AST facts, harness. Space invariance is proved at token level only (lifted by the metamorphic oracle); "
-             "print_parse is refuted on the pinned tree (D11, listed in known_findings.json) and no universally quantified partial version is proved; three internal asserts are not proved unreachable.",
+        note="Trusted: Lean kernel, driver, extractor of the parser constants/AST facts, harness. print_parse is refuted on the pinned tree (D11, D18, listed in known_findings.json); print_parse_partial excludes numeric axes inside brackets and doubled spaces, and that every parseOp result "
+             "outside the three refuted patterns is Printable is sampled, not proved; three internal asserts are not proved unreachable.",
         technique="Lean 4 proof over hand-written total parser model + regenerated constants + exhaustive/random differential correspondence",
         design="5 (C12)"),
 }
